@@ -29,13 +29,15 @@ def run(tier, seed, replay=None):
         sources += [G.malformed(r, shipped) for _ in range(n)]
     recs = A.assemble_all(h, drv, sources, want_tokens=True)
     cls = Counter()
-    faults, mism = [], []
+    faults, mism, leftover = [], [], []
     kinds = set()
     for rec in recs:
         a = rec["real"]
         k = " ".join(a.split(" ")[:2]) if not a.startswith("ok") else "ok"
         cls[k] += 1
         kinds.add(k)
+        if rec.get("left") is not None:
+            leftover.append(rec)
         if a.startswith("fault") or rec["tok_real"].startswith("fault"):
             faults.append(rec)
         elif a != rec["model"] or rec["tok_real"] != rec["tok_model"]:
@@ -53,6 +55,7 @@ def run(tier, seed, replay=None):
                 "non-trivial = longer than 3 bytes, distinct by content; outcome classes below",
         "samples": [s.decode("latin1")[:120] for s in sources[20:24]],
         "outcome_classes": dict(cls), "model_vs_impl_mismatches": len(mism), "faults": len(faults),
+        "diagnostic_but_output_left_behind": len(leftover),
         "traces_validated_against_impl": len(sources) - len(mism) - len(faults),
     })
     rep.assumptions += ["inputs are up to a few kilobytes (property quantifier); the theorem covers < 2^26 bytes"]
@@ -65,6 +68,17 @@ def run(tier, seed, replay=None):
         rr = A.assemble_all(h, drv, [small], want_tokens=True)[0]
         rep.violation("fault", {"source_hex": small.hex(), "source": small.decode("latin1"), "implementation": rr["real"],
                                 "tokens": rr["tok_real"][:200], "model": rr["model"][:300], "seed": seed, "count": len(faults)})
+    elif leftover:
+        rec = leftover[0]
+        def fails(src):
+            rr = A.assemble_all(h, drv, [src])[0]
+            return rr.get("left") is not None
+        small = A.shrink_source(rec["src"], fails)
+        rr = A.assemble_all(h, drv, [small])[0]
+        rep.violation("emits-on-error", {"source_hex": small.hex(), "source": small.decode("latin1"), "implementation": rr["real"],
+                                         "output_bytes_left_behind": rr.get("left"), "model": rr["model"][:300], "seed": seed,
+                                         "broken": "a diagnostic was reported but the output file exists (clause: reports a diagnostic "
+                                                   "and emits nothing)", "count": len(leftover)})
     elif mism:
         rec = mism[0]
         rep.violation("correspondence", {"source_hex": rec["src"].hex(), "source": rec["src"].decode("latin1")[:500],
@@ -73,7 +87,7 @@ def run(tier, seed, replay=None):
                                          "broken": "outcome class/location or token stream differs between model and hexasm.hpp",
                                          "count": len(mism)}, no_input=True)
     if problems:
-        rep.violation("proof", {"broken": problems}, no_input=not faults)
+        rep.violation("proof", {"broken": problems}, no_input=not (faults or leftover))
     if replay:
         for rec in recs:
             print(rec)
